@@ -209,6 +209,9 @@ def main(argv=None):
         extra = prop.evidence_extra({"campaigns": campaigns})
         path = evidence.write(prop, tier, seed, campaigns, wall, n_viol, known_reported, det, extra)
         print(f"evidence written to {path}")
+    if n_viol > 0:
+        # a violation that was found, minimised and replayed is a verdict whatever trouble another campaign had
+        exit_code = 1
     runs = sum(m["runs"] for m in campaigns.values())
     print(f"done property={prop_id} runs={runs} wall={wall:.1f}s exit={exit_code}")
     return exit_code
